@@ -12,6 +12,9 @@ SAMPLES = [8, 16, 24, 40, 0x1000, 0x7FFF_FFFF_FFF8, (1 << 63) + 8, (1 << 64) - 8
 ALIGNS = (1, 2, 4, 8, 16, 64)
 
 
+PRIM_ALIGN = {"u8": 1, "i8": 1, "bool": 1, "()": 1, "u16": 2, "i16": 2, "u32": 4, "i32": 4, "f32": 4, "char": 4, "u64": 8, "i64": 8, "f64": 8, "usize": 8, "isize": 8, "u128": 16, "i128": 16}
+
+
 def union_word_leaf(word, align_of=None):
     """Leaf values for expressions over the union's stored word; `align_of` maps a type-parameter name to an assumed alignment
     (for alignment-dependent tests such as `ptr.is_aligned()`)."""
@@ -26,7 +29,7 @@ def union_word_leaf(word, align_of=None):
             if e[1][0] == "proj":  # `(arg.p).0` written as a projection of a projection
                 return leaf(("proj", e[1][1], tuple(e[1][2]) + tuple(e[2])))
         if e[0] == "call" and e[2] == "is_aligned" and e[3] and align_of is not None:
-            a = align_of.get(e[4][0] if e[4] else None)
+            a = align_of.get(e[4][0] if e[4] else None) or PRIM_ALIGN.get(e[4][0] if e[4] else None)
             v = symx.eval_int(e[3][0], leaf)
             if a is None or v is None:
                 return None
@@ -99,7 +102,8 @@ def tag_rules(F, rep, tag, gen, rule="R-TAG"):
         judge_pred(b, False, "is_second")
     # ------------------------------------------------------------- R-TAG: borrow (variant chosen by the tag, tag stripped)
     for b in F.method("ArcUnion", "borrow"):
-        e = symx.fn_value(F, b)
+        # (a private helper shared by the two arms - `unsafe fn borrow_as<T>(&self)` - is judged in place)
+        e = symx.normalize_calls(F, symx.fn_value(F, b), lambda k: not balance.is_api(F, F.body(k)))
         good = True
         why = None
         ub = F.handle_paths.get("ArcUnionBorrow")
@@ -321,7 +325,49 @@ def _released_types(F, b, blocks, gmap, depth):
     return out
 
 
-def _arms(F, A, rep, tag, gen):
+def _returns_same_word(F, key):
+    """`Self::new(self.p.as_ptr())` / `ArcUnion { p: self.p, .. }`: the returned union stores the receiver's word unchanged (evaluated)."""
+    b = F.body(key)
+    symx.set_facts(F)
+    e = symx.normalize_calls(F, symx.fn_value(F, b), lambda k: not balance.is_api(F, F.body(k)))
+    for _ in range(4):
+        while e[0] in ("bb", "addr"):
+            e = e[-1] if e[0] == "bb" else e[1]
+        if e[0] == "call" and (F.body(e[1]) or {}).get("name") == "new" and F.handle_name((F.body(e[1]).get("impl") or {}).get("self_ty", -1)) == "ArcUnion" and e[3]:
+            e = e[3][0]
+            break
+        if e[0] == "agg" and e[1] == "adt" and e[2] == F.handle_paths.get("ArcUnion") and e[4]:
+            e = e[4][0]
+            break
+        return False
+    bits = F.pointer_bits
+    for P in SAMPLES:
+        for tagbit in (0, 1):
+            w = P | tagbit
+            if symx.eval_int(e, union_word_leaf(w), bits) != w:
+                return False
+    return True
+
+
+def union_dispatch(ctx, rep):
+    """Premise of every count argument that includes `ArcUnion` owners (C01/C03/C04): the union finds the block - and so the count
+    word - of the `Arc` it was made from. The constructors store `into_raw | tag`, the test reads exactly the tag, `borrow` strips
+    exactly the tag (R-TAG, evaluated over sample words and payload alignments), and Clone/Drop act at the type of their own
+    variant (R-ARMS): a count bumped or released at the other variant's type lands `offset_of_data` of the wrong type before the
+    payload."""
+    for tag, F, E in ctx.each():
+        A = balance.analysis(tag, F, E)
+        u = F.adts.get(F.handle_paths.get("ArcUnion", ""))
+        if not u:
+            continue
+        gen = [g["name"] for g in u["generics"] if g["kind"] == "type"]
+        tag_rules(F, rep, tag, gen)
+        _arms(F, A, rep, tag, gen, only_count=True)
+    rep.floor("R-TAG", 5, "2 constructors, is_first, is_second, strip")
+    rep.floor("R-ARMS", 2, "Clone, Drop")
+
+
+def _arms(F, A, rep, tag, gen, only_count=False):
     spec = {
         ("ArcUnion", "clone", "Clone"): {"First": [(("clone_arc", "clone"), gen[0]), ("from_first", None)], "Second": [(("clone_arc", "clone"), gen[1]), ("from_second", None)]},
         ("ArcUnion", "drop", "Drop"): {"First": [("from_raw", gen[0])], "Second": [("from_raw", gen[1])]},
@@ -377,6 +423,8 @@ def _arms(F, A, rep, tag, gen):
                     names = nm if isinstance(nm, tuple) else (nm,)
                     hits = [g for g in got if g[0] in names and (ty is None or g[1])]
                     nm = "/".join(names)
+                    if not hits and m == "clone" and ty is None and _returns_same_word(F, ik):
+                        continue  # the clone hands out the very word it holds (tag included) instead of re-tagging per variant
                     if not hits:
                         good, why = False, "the %s arm does not call %s" % (variant, nm)
                     elif ty is not None and not any(g[1] and g[1][0] == ty for g in hits):
@@ -388,6 +436,8 @@ def _arms(F, A, rep, tag, gen):
                 rep.ok("R-ARMS", ik, cfg=tag)
             else:
                 rep.bad("R-ARMS", ik, why, F.loc(b), tag)
+    if only_count:
+        return
     # both Drop arms release exactly one owner of their own type (R-BAL on Drop is C01; here: each arm drops an Arc)
     for name, keep in (("as_first", "First"), ("as_second", "Second")):
         for b in F.method("ArcUnion", name):
@@ -427,11 +477,14 @@ def _arms(F, A, rep, tag, gen):
         b = inline.inlined_full(F, b["key"]) or b  # a visitor over the variant with closures per arm is judged as straight code
         B = cfg.Body(b)
         consts = []
-        for bl in b["blocks"]:
+        from . import c14 as _c14
+
+        _tests, lic_region = _c14.licence_tests(F, b)  # `self.p == other.p` (same allocation, same variant): C14 R-LICENCE
+        for bi_, bl in enumerate(b["blocks"]):
             for s in bl["stmts"]:
                 if s["k"] == "assign" and s["lhs"]["l"] == 0 and not s["lhs"]["p"] and s["rv"]["k"] == "use":
                     v = B.const_value(s["rv"]["op"])
-                    if v is not None:
+                    if v is not None and not (bi_ in lic_region and int(v) == 1):
                         consts.append(v)
         cmps = []
         good = True
